@@ -65,7 +65,7 @@ struct Fixture {
     }
     // ext: extra pre-states (histories) of the objects - 1 stream grown to the heap then truncate(0); 2 grown then erased down to 3 bytes;
     // 3 fresh empty stream; 4 default-constructed (empty) targets; 5 moved-from targets; 6 = 3+4; 7 = 1+4
-    void build(size_t size_arg, bool t_long, bool a_long, bool ss_heap, int ext = 0) {
+    void build(size_t size_arg, bool t_long, bool a_long, bool ss_heap, int ext = 0, bool huge = false) {
         n = size_arg;
         raw8 = text(n, 1); latin1 = raw8; for (char &ch : latin1) if ((unsigned char)ch >= 0x80) ch = (char)0xE9;
         for (size_t i = 0; i < n; i++) { uint32_t v = (i % 4 == 1) ? 0xE9 : (i % 6 == 2) ? 0x1F600 : 'A' + i % 26; raw32.push_back(v); raww.push_back((wchar_t)v);
@@ -87,6 +87,10 @@ struct Fixture {
             else if (ext == 3 || ext == 6) { }
             else if (ss_heap) SS.obj->append_char('s', 700); else SS.obj->append("stream", 6);
             if (ext == 4 || ext == 6 || ext == 7) { *T.obj = ST::string(); *CB.obj = ST::char_buffer(); *U16.obj = ST::utf16_buffer(); *U32.obj = ST::utf32_buffer(); *W.obj = ST::wchar_buffer(); }
+            if (huge) {      // targets that own a heap block of 1 MiB + 3 units (an implementation may treat big blocks differently)
+                *T.obj = ST::string::fill((1u << 20) + 3, 'h'); *CB.obj = ST::char_buffer((1u << 20) + 3, 'h'); *U16.obj = ST::utf16_buffer((1u << 19) + 3, u'h');
+                *U32.obj = ST::utf32_buffer((1u << 18) + 3, U'h'); *W.obj = ST::wchar_buffer((1u << 20) / sizeof(wchar_t) + 3, L'h');
+            }
             else if (ext == 5) { ST::string t(std::move(*T.obj)); ST::char_buffer c(std::move(*CB.obj)); ST::utf16_buffer u(std::move(*U16.obj)); ST::utf32_buffer v(std::move(*U32.obj)); ST::wchar_buffer x(std::move(*W.obj)); }
             HEX = new ST::string(ST::hex_encode(raw8.data(), raw8.size())); B64 = new ST::string(ST::base64_encode(raw8.data(), raw8.size()));
         }
@@ -281,16 +285,35 @@ const Op kOps[] = {
     OP("SS.to_string()", TGT_NONE, g_sink = f.SS.obj->to_string().size() + f.SS.obj->to_string(false).size()),
     OP("T = SS.to_string()", TGT_T, *f.T.obj = f.SS.obj->to_string()),
     OP("stream move + append", TGT_SS, ST::string_stream m(std::move(*f.SS.obj)); m.append_char('m', f.n); *f.SS.obj = std::move(m)),
+    // ---- operations that normally allocate nothing (searching, comparing, hashing, parsing): they are part of the catalogue so that an
+    //      allocation introduced into one of them is subjected to the same faults (most of them are noexcept: a throw would terminate)
+    OP("A.find(cstr) cs", TGT_NONE, g_sink = (size_t)f.A.obj->find(f.x8->data())),
+    OP("A.find(cstr) ci", TGT_NONE, g_sink = (size_t)f.A.obj->find(f.x8->data(), ST::case_insensitive)),
+    OP("A.find(start, string) ci", TGT_NONE, g_sink = (size_t)f.A.obj->find(1, *f.T.obj, ST::case_insensitive)),
+    OP("A.find_last(cstr) ci", TGT_NONE, g_sink = (size_t)f.A.obj->find_last(f.x8->data(), ST::case_insensitive)),
+    OP("A.find_last(string) cs", TGT_NONE, g_sink = (size_t)f.A.obj->find_last(*f.T.obj)),
+    OP("A.contains(cstr) ci", TGT_NONE, g_sink = f.A.obj->contains(f.x8->data(), ST::case_insensitive)),
+    OP("A.contains(char) ci", TGT_NONE, g_sink = f.A.obj->contains('Q', ST::case_insensitive)),
+    OP("A.starts_with/ends_with(cstr) ci", TGT_NONE, g_sink = f.A.obj->starts_with(f.x8->data(), ST::case_insensitive) + f.A.obj->ends_with(f.x8->data(), ST::case_insensitive)),
+    OP("A.compare(T) cs/ci + operators", TGT_NONE, g_sink = (size_t)f.A.obj->compare(*f.T.obj) + (size_t)f.A.obj->compare_i(*f.T.obj) + (*f.A.obj == *f.T.obj) + (*f.A.obj < *f.T.obj) + (size_t)f.A.obj->compare_n(f.x8->data(), 5, ST::case_insensitive)),
+    OP("hash / hash_i / std::hash", TGT_NONE, g_sink = ST::hash()(*f.A.obj) + ST::hash_i()(*f.A.obj) + std::hash<ST::string>()(*f.T.obj)),
+    OP("A.to_int / to_double / to_bool", TGT_NONE, g_sink = (size_t)f.A.obj->to_int() + (size_t)f.A.obj->to_ulong_long(16) + (size_t)f.A.obj->to_double() + f.A.obj->to_bool()),
+    OP("A.before_first(cstr) ci", TGT_NONE, g_sink = f.A.obj->before_first(f.x8->data(), ST::case_insensitive).size()),
+    OP("A.after_last(string) ci", TGT_NONE, g_sink = f.A.obj->after_last(*f.B.obj, ST::case_insensitive).size()),
+    OP("A.split(cstr) ci", TGT_NONE, g_sink = f.A.obj->split(f.x8->data(), (size_t)-1, ST::case_insensitive).size()),
+    OP("A.replace(cstr, cstr) ci", TGT_NONE, g_sink = f.A.obj->replace(f.x8->data(), "+", ST::case_insensitive).size()),
+    OP("CB.compare / == / view", TGT_NONE, g_sink = (size_t)f.CB.obj->compare(*f.CB2.obj) + (*f.CB.obj == *f.CB2.obj) + f.CB.obj->view().size()),
+    OP("hex/base64 decode into caller buffer", TGT_NONE, char out[2048]; g_sink = (size_t)ST::hex_decode(*f.HEX, out, sizeof out) + (size_t)ST::base64_decode(*f.B64, out, sizeof out)),
 };
 const int kNOps = (int)(sizeof(kOps) / sizeof(kOps[0]));
 const size_t kSizes[] = {3, 15, 16, 40, 300, 1100};
 
-struct Instance { int op; int size_idx; bool t_long, a_long, ss_heap; int ext; };
+struct Instance { int op; int size_idx; bool t_long, a_long, ss_heap; int ext; bool huge = false; };
 
 const char *const kExt[8] = {"", "stream grown then truncate(0)", "stream grown then erased to 3 bytes", "fresh empty stream", "empty targets", "moved-from targets", "fresh stream + empty targets", "stream grown then truncate(0) + empty targets"};
 std::string describe(const Instance &in, long N, long k) {
     return std::string("C19 op=") + kOps[in.op].name + " n=" + verif::unum(kSizes[in.size_idx]) + " target=" + (in.t_long ? "long" : "short") + " source=" + (in.a_long ? "long" : "short") +
-           " stream=" + (in.ss_heap ? "heap" : "in-object") + (in.ext ? std::string(" pre-state=") + kExt[in.ext] : std::string()) + " allocs=" + verif::num(N) + (k ? " fail k=" + verif::num(k) : "");
+           " stream=" + (in.ss_heap ? "heap" : "in-object") + (in.ext ? std::string(" pre-state=") + kExt[in.ext] : std::string()) + (in.huge ? " targets own 1 MiB blocks" : "") + " allocs=" + verif::num(N) + (k ? " fail k=" + verif::num(k) : "");
 }
 
 // Runs one instance: counting pass + one faulted run per allocation.  Returns "" or the violation (with the failing k in *kfail).
@@ -299,7 +322,7 @@ std::string run_instance(const Instance &in, long &N, long &pairs, long &nontriv
     // counting pass (no fault)
     {
         va::reset();
-        Fixture f; f.build(kSizes[in.size_idx], in.t_long, in.a_long, in.ss_heap, in.ext);
+        Fixture f; f.build(kSizes[in.size_idx], in.t_long, in.a_long, in.ss_heap, in.ext, in.huge);
         long before = va::scope_allocs();
         try { va::LibScope l; op.run(f); }
         catch (...) { return "the operation throws without any injected fault: " + verif::describe_current_exception(); }
@@ -311,7 +334,7 @@ std::string run_instance(const Instance &in, long &N, long &pairs, long &nontriv
     for (long k = 1; k <= N; k++) {
         if (only_k && k != only_k) continue;
         va::reset();
-        Fixture f; f.build(kSizes[in.size_idx], in.t_long, in.a_long, in.ss_heap, in.ext);
+        Fixture f; f.build(kSizes[in.size_idx], in.t_long, in.a_long, in.ss_heap, in.ext, in.huge);
         bool got_bad_alloc = false; std::string other;
         va::arm_fault(k);
         try { va::LibScope l; op.run(f); }
@@ -337,7 +360,7 @@ std::string run_instance(const Instance &in, long &N, long &pairs, long &nontriv
 Instance decode(verif::Reader &r) {
     Instance in;
     in.op = (int)r.idx(kNOps); in.size_idx = (int)r.idx(6);
-    uint8_t fl = r.u8(); in.t_long = fl & 1; in.a_long = fl & 2; in.ss_heap = fl & 4; in.ext = (fl >> 3) & 7;
+    uint8_t fl = r.u8(); in.t_long = fl & 1; in.a_long = fl & 2; in.ss_heap = fl & 4; in.ext = (fl >> 3) & 7; in.huge = (fl & 64) != 0 && in.ext == 0;
     return in;
 }
 
@@ -378,7 +401,22 @@ long verif_enumerate(int shard, int nshards, int tier, verif::EnumReport &r) {
                 if (r.want_sample() && N >= 2 && (idx % 97) == 3) r.samples.push_back(describe(in, N, 0) + " -> each of the " + verif::num(N) + " allocations failed in turn");
                 if (!why.empty()) { r.failure = why; r.failing_case = describe(in, N, kf); r.failing_bytes.assign(cur, cur + 4); return r.evaluations; }
             }
+    // targets owning 1 MiB blocks: every operation that has a target, 2 argument sizes x source short/long
+    for (int op = 0; op < kNOps; op++) {
+        if (kOps[op].target == TGT_NONE || kOps[op].target == TGT_SS) continue;
+        for (int sz = 2; sz <= 4; sz += 2) for (int al = 0; al < 2; al++, idx++) {
+            if (idx % nshards != shard) continue;
+            if (!tier && sz == 4 && al) continue;
+            Instance in{op, sz, true, al != 0, false, 0, true};
+            cur[0] = (uint8_t)op; cur[1] = (uint8_t)sz; cur[2] = (uint8_t)(64 | 1 | (al ? 2 : 0)); cur[3] = 0; verif::set_current(cur, 4);
+            long N = 0, pairs = 0, nt = 0, kf = 0;
+            std::string why = run_instance(in, N, pairs, nt, 0, &kf);
+            r.evaluations += pairs; r.nontrivial += nt;
+            if (!why.empty()) { r.failure = why; r.failing_case = describe(in, N, kf); r.failing_bytes.assign(cur, cur + 4); return r.evaluations; }
+        }
+    }
     va::reset();
+    if (shard == 0) r.exhausted.push_back("every operation with a string or buffer target, the target owning a heap block of 1 MiB + 3 units, x every allocation");
     if (shard == 0) r.exhausted.push_back(std::string("every operation of the catalogue (") + verif::num(kNOps) + " operations) x 6 size classes x target/source/stream storage modes x 8 pre-states (stream grown then emptied / erased / fresh, targets empty / moved-from)" + (tier ? "" : " (thinned in the quick tier)") + " x every allocation it performs");
     return r.evaluations;
 }
